@@ -872,3 +872,54 @@ Proof.
   - split; auto.
   - split; auto.
 Qed.
+
+(* the same with multiplicities: every value occurs afterwards at least as often as before *)
+Lemma count_occ_rev' (l : list Z) x : count_occ Z.eq_dec (rev l) x = count_occ Z.eq_dec l x.
+Proof.
+  induction l as [|y l IH]; [reflexivity|]. cbn [rev]. rewrite count_occ_app, IH. cbn.
+  destruct (Z.eq_dec y x); lia.
+Qed.
+
+Lemma count_occ_drop_take k (l : list Z) x :
+  count_occ Z.eq_dec (drop k l ++ take k l) x = count_occ Z.eq_dec l x.
+Proof. rewrite <- (take_drop k l) at 3. rewrite !count_occ_app. lia. Qed.
+
+Lemma count_fold_appendleft_none vs : forall (acc : list Z) x,
+  (count_occ Z.eq_dec acc x <= count_occ Z.eq_dec (fold_left (l_appendleft None) vs acc) x)%nat.
+Proof.
+  induction vs as [|v vs IH]; intros acc x; cbn [fold_left]; [lia|].
+  eapply Nat.le_trans; [|apply IH]. unfold l_appendleft, l_trim_right. cbn [count_occ]. unfold val in *. destruct (Z.eq_dec v x); lia.
+Qed.
+
+Theorem deque_never_loses_multiset : forall d o, DInv d -> dq_maxlen d = None -> removing o = false ->
+  match o with
+  | OSet _ _ => True
+  | _ => forall x, (count_occ Z.eq_dec (view d) x <= count_occ Z.eq_dec (view (fst (dq_step d o))) x)%nat
+  end.
+Proof.
+  intros d o I M R.
+  pose proof (deque_refines d o I) as F. destruct (dq_step d o) as [d' r]. destruct F as [_ F]. cbn [fst].
+  assert (V : view d' = l_items (fst (ldq_step (absd d) o))) by (rewrite F; reflexivity).
+  rewrite V. clear F V. unfold absd. rewrite M. cbn [option_map].
+  destruct o; try discriminate R; try exact Logic.I; intros x; cbn [ldq_step l_items l_maxlen fst ldq_with]; try (unfold val in *; lia).
+  - unfold l_append, l_trim_left. rewrite count_occ_app. (unfold val in *; lia).
+  - unfold l_appendleft, l_trim_right. cbn [count_occ]. destruct (Z.eq_dec v x); (unfold val in *; lia).
+  - rewrite fold_append_none, count_occ_app. (unfold val in *; lia).
+  - apply count_fold_appendleft_none.
+  - rewrite fold_append_none, count_occ_app. (unfold val in *; lia).
+  - destruct (rev (view d)); cbn [fst l_items]; (unfold val in *; lia).
+  - destruct (view d); cbn [fst l_items]; (unfold val in *; lia).
+  - destruct (l_norm_index i (length (view d))); cbn [fst l_items]; (unfold val in *; lia).
+  - unfold l_rotate. destruct (view d) as [|y l] eqn:E; [cbn; (unfold val in *; lia)|]. rewrite <- E.
+    destruct (n >=? 0); rewrite count_occ_drop_take; (unfold val in *; lia).
+  - rewrite count_occ_rev'. (unfold val in *; lia).
+Qed.
+
+(* the hypotheses of the theorems above are satisfiable *)
+Example DInv_example :
+  DInv (dq_new (Some 3) [1; 2; 3; 4]) /\ view (dq_new (Some 3) [1; 2; 3; 4]) = [2; 3; 4] /\
+  DInv (dq_new None [1; 2]) /\ dq_maxlen (dq_new None [1; 2]) = None /\ removing (ORotate 5) = false.
+Proof.
+  split; [apply (DInv_new (Some 3%nat))|]. split; [vm_compute; reflexivity|].
+  split; [apply (DInv_new None)|]. split; vm_compute; reflexivity.
+Qed.
